@@ -13,6 +13,11 @@
 /* a block handed to realloc/free must be a live heap block at offset 0 */
 #define HEAP_BLOCK(p) (__CPROVER_DYNAMIC_OBJECT(p) && __CPROVER_POINTER_OFFSET(p) == 0)
 
+/* address of the combined-allocation payload (ints, floats).  Contracts name the payload through this
+ * expression rather than through the loaded pointer it->data (equal by validity): CBMC cannot resolve a
+ * pointer loaded from a contract-introduced object, so facts stated through it would be lost in REPLACE mode */
+#define PAYLOAD(it) ((unsigned char *)(it) + sizeof(cbor_item_t))
+
 #define IS_INT(it) ((it)->type == CBOR_TYPE_UINT || (it)->type == CBOR_TYPE_NEGINT)
 #define INT_WIDTH(it) ((it)->metadata.int_metadata.width)
 #define INT_BYTES(it) ((size_t)1 << (unsigned)INT_WIDTH(it))
